@@ -173,6 +173,20 @@ func main() {
 			} else {
 				res.Counters["loads-into-fresh-world"]++
 			}
+			if r.Chance(25) {
+				// a load attempt while the (still empty) target world is locked is rejected and leaves it as it was: the
+				// real load below must work as if the attempt had never been made
+				q := ecs.NewFilter0(w2).Query()
+				p := try(func() { w2.Unsafe().LoadEntities(&dump) })
+				q.Close()
+				res.Counters["loads-rejected-on-a-locked-world"]++
+				if p == nil {
+					msgs = append(msgs, "LoadEntities on a locked world returned normally")
+				}
+				if n := w2.Stats().Entities.Used; n != 0 {
+					msgs = append(msgs, fmt.Sprintf("after a rejected LoadEntities (world locked) the empty target world reports %d alive entities", n))
+				}
+			}
 			if p := try(func() { w2.Unsafe().LoadEntities(&dump) }); p != nil {
 				msgs = append(msgs, fmt.Sprintf("LoadEntities panicked: %v", p))
 			} else {
@@ -373,6 +387,14 @@ func main() {
 					}
 					if n := w2.Stats().Entities.Used; n != usedNow {
 						msgs = append(msgs, fmt.Sprintf("rejected calls changed the loaded world's alive count from %d to %d", usedNow, n))
+					}
+				}
+				// a loaded world is a world like any other: Reset returns it to a reusable empty state (C16)
+				if len(msgs) == 0 {
+					res.Counters["resets-of-loaded-worlds"]++
+					msgs = append(msgs, afterReset(w2, "loaded world")...)
+					if sibling {
+						msgs = append(msgs, afterReset(w5, "second world loaded from the same dump")...)
 					}
 				}
 			}
@@ -639,6 +661,56 @@ func codecs(seed uint64, pairs int, cnt map[string]int64) []string {
 		if err := e.UnmarshalBinary(buf); err == nil {
 			msgs = append(msgs, fmt.Sprintf("UnmarshalBinary accepted %d bytes", n))
 		}
+	}
+	return msgs
+}
+
+type resetRel struct{ ecs.RelationMarker }
+
+// afterReset resets a world that was populated by LoadEntities and checks that it is empty and usable like a new one.
+func afterReset(w *ecs.World, what string) (msgs []string) {
+	defer func() {
+		if p := recover(); p != nil {
+			msgs = append(msgs, fmt.Sprintf("%s after Reset: a valid call panicked: %v", what, p))
+		}
+	}()
+	w.Reset()
+	if s := w.Stats().Entities; s.Used != 0 || w.IsLocked() {
+		msgs = append(msgs, fmt.Sprintf("%s after Reset: %+v, locked=%v", what, s, w.IsLocked()))
+	}
+	if w.Alive(ecs.Entity{}) {
+		msgs = append(msgs, fmt.Sprintf("%s after Reset: the zero entity is reported alive", what))
+	}
+	rm := ecs.NewMap1[resetRel](w)
+	seen := map[ecs.Entity]bool{}
+	var es []ecs.Entity
+	for i := 0; i < 4; i++ {
+		e := w.NewEntity()
+		if e.IsZero() || e.ID() < 2 || seen[e] || !w.Alive(e) {
+			msgs = append(msgs, fmt.Sprintf("%s after Reset: creation %d returns %v (zero=%v, issued before=%v, alive=%v)", what, i, e, e.IsZero(), seen[e], w.Alive(e)))
+		}
+		seen[e] = true
+		es = append(es, e)
+	}
+	if w.Alive(ecs.Entity{}) {
+		msgs = append(msgs, fmt.Sprintf("%s after Reset and %d creations: the zero entity is reported alive", what, len(es)))
+	}
+	child := rm.NewEntity(&resetRel{}, ecs.RelIdx(0, es[0]))
+	if t := rm.GetRelation(child, 0); t != es[0] {
+		msgs = append(msgs, fmt.Sprintf("%s after Reset: a child of the first entity %v has target %v", what, es[0], t))
+	}
+	f := ecs.NewFilter1[resetRel](w)
+	q := f.Query(ecs.RelIdx(0, es[0]))
+	if n := q.Count(); n != 1 {
+		msgs = append(msgs, fmt.Sprintf("%s after Reset: the query for children of the first entity counts %d, want 1", what, n))
+	}
+	q.Close()
+	w.RemoveEntity(es[0])
+	if t := rm.GetRelation(child, 0); !t.IsZero() {
+		msgs = append(msgs, fmt.Sprintf("%s after Reset: child of a removed target has target %v", what, t))
+	}
+	if n := w.Stats().Entities.Used; n != 4 {
+		msgs = append(msgs, fmt.Sprintf("%s after Reset: %d entities alive after 5 creations and 1 removal", what, n))
 	}
 	return msgs
 }
